@@ -109,7 +109,12 @@ class StrainWorker(Task):
 
 def _tasks0(tier):
     from props.colander_parents import parent_tasks
-    return [StrainWorker(3), StrainWorker(2)] + parent_tasks(tier)
+    # the headers colander writes, re-read by the real parser (skeletons; kept fields reordered, level limits)
+    from props.roundtrip import ColanderRoundTrip
+    rt = [ColanderRoundTrip(3, 3, [2, 1], [2, 0], None), ColanderRoundTrip(2, 3, [1, 2], [1], 0), ColanderRoundTrip(3, 2, [1], "all", None)]
+    for t in rt:
+        t.prop = "C05"
+    return [StrainWorker(3), StrainWorker(2)] + parent_tasks(tier) + rt
 
 
 def canaries(tier):
